@@ -52,10 +52,15 @@ def c01_roundtrip(code, dec):
 
 
 # ------------------------------------------------------------------ C02 / C13
-def _const_same(a, b):
-    """decoded constant a vs CPython constant b (type-exact; nested code compared by decoding)."""
+def _const_same(a, b, dec=None):
+    """decoded constant a vs CPython constant b (type-exact; a nested code object must be what decoding it on its own gives)."""
     if isinstance(b, types.CodeType):
-        return isinstance(a, CodeData) and a.name == b.co_name and a.first_line_number == b.co_firstlineno
+        if not (isinstance(a, CodeData) and a.name == b.co_name and a.first_line_number == b.co_firstlineno and a.filename == b.co_filename):
+            return False
+        if dec is not None:
+            alone, err = dec.get(b)
+            return err is not None or a == alone
+        return True
     return oracle.const_repr(a) == oracle.const_repr(b)
 
 
@@ -101,7 +106,7 @@ def c02_reading(code, dec):
             if not (isinstance(a, Freevar) and a.freevar == val):
                 out.append("%s: %r != free %r" % (where, a, val))
         elif kind == "const":
-            if not (isinstance(a, Constant) and _const_same(a.constant, val)):
+            if not (isinstance(a, Constant) and _const_same(a.constant, val, dec)):
                 out.append("%s: %r != const %r" % (where, a, val))
         elif kind == "noarg":
             if not isinstance(a, NoArg):
